@@ -268,6 +268,35 @@ def check_axisless_squeeze(run, A, module_prefixes, rule='R-ELL'):
     return n
 
 
+def check_layout_dependent_flatten(run, A, module_prefixes, rule='R-ELL'):
+    """a flattening (ravel / flatten / reshape) does not use order='K' / 'A': with these the ORDER OF THE VALUES follows the memory layout
+    of the argument, so a transposed view of the same array gives a different result - the per-index results that are reshaped back in C
+    order land at other leading indices (the reference tree has no such flattening; copies may keep any layout)"""
+    from .walk import call_parts, call_arg, const_val, NOVAL
+    n = 0
+    for fn in A.prog.all_funcs():
+        if not any(fn.mod.name == p.rstrip('.') or fn.mod.name.startswith(p) for p in module_prefixes):
+            continue
+        g = A.graphs.get(fn)
+        for e in g.events:
+            if e.kind != 'call':
+                continue
+            name = call_parts(e.term)[0]
+            if name not in ('numpy.ravel', 'numpy.reshape', 'method:ravel', 'method:flatten', 'method:reshape'):
+                continue
+            n += 1
+            o = call_arg(e.term, None, 'order')
+            if o is None and name in ('numpy.ravel', 'method:ravel', 'method:flatten'):
+                o = call_arg(e.term, 1, 'order')
+            v = const_val(o) if o is not None else 'C'
+            run.check(v is NOVAL or v not in ('K', 'A', 'k', 'a'), rule, f'{fn.qual.split("::")[1]}: flattening does not follow the memory layout', fn.loc(e.term.node), '',
+                      f'`{norm_stmt(e.term.node)[:90]}` orders the values by the memory layout of its argument (order={v!r}): a non-contiguous / transposed input is '
+                      f'flattened in another order than the C-order reshape that puts the results back, so results move between leading indices',
+                      construct=f'{rule}::{fn.qual}::layout-dependent-flatten')
+    run.count('flattening calls examined', n)
+    return n
+
+
 def check_none_use(run, A, module_prefixes, rule='R-NONE'):
     """inside the branch where `x is None` holds, x is not used as a value: indexing it, arithmetic with it or handing it to einsum raises a
     TypeError on exactly the inputs that take this branch (a flipped `is None` / `is not None` passes every test that never takes it)"""
